@@ -669,7 +669,7 @@ func init() {
 					L.reg.Insert(lv, cf.LocalBase)
 				}
 				// +inline-call L.initCallFrame cf
-				// +inline-call L.reg.CopyRange base RA -1 reg.Top()-RA-1
+				// +inline-call L.reg.CopyRange base RA -1 reg.Top()-RA
 				cf.Base = base
 				cf.LocalBase = base + (cf.LocalBase - lbase + 1)
 			}
